@@ -8,7 +8,7 @@ THEOREMS = ['Tbox.C02.C02_callbacks_legit', 'Tbox.C02.C02_never_early', 'Tbox.C0
             'Tbox.C02.C02_records_belong_to_enabled', 'Tbox.C02.C02_deadline_order', 'Tbox.C02.C02_oneshot_once',
             'Tbox.C02.C02_oneshot_disabled_in_callback', 'Tbox.C02.C02_no_skip', 'Tbox.C02.C02_reenable_fresh', 'Tbox.C02.C02_destroyed_never_fires',
             'Tbox.C02.exec_inv']
-SOURCES = vlib.EVENT_SOURCES + vlib.BASE_SOURCES
+SOURCES = vlib.EVENT_SOURCES + vlib.BASE_SOURCES + ['modules/eventx/timer_pool.cpp']
 FLAVOUR = 'asan'
 LIBS = ['-ldl']
 BATCH = 200
@@ -59,6 +59,42 @@ def gen_case(rng, nops):
     return ops
 
 
+def gen_pool_case(rng, nops):
+    """TimerPool case: doAfter/doEvery with callbacks that cancel pool timers (also themselves), cancel, cleanup"""
+    ops = ['engine ' + rng.choice(['epoll', 'select'])]
+    ivs = rng.sample([1, 2, 3, 5, 7, 10], rng.choice([1, 2, 3]))
+    made = 0
+    for _ in range(nops):
+        r = rng.random()
+        if r < 0.35 or made == 0:
+            sc = ','.join('c%d' % rng.randrange(made + 3) for _ in range(rng.choice([0, 0, 1, 1, 2]))) or '-'
+            ops.append('%s %d %s' % (rng.choice(['pafter', 'pevery']), rng.choice(ivs), sc)); made += 1
+        elif r < 0.8: ops.append('adv %d' % rng.choice([0, 1, 1, 2, 3, 5, 7, 10, 21]))
+        elif r < 0.95: ops.append('pcancel %d' % rng.randrange(made + 2))
+        else: ops.append('pcleanup')
+    return ops
+
+
+def gen_heap_case(rng):
+    """many timers armed in shuffled deadline order, then removals from the middle of the heap
+    (outside and inside callbacks), then single-millisecond steps: deadline order must survive"""
+    n = rng.choice([7, 8, 9, 12, 16])
+    ivs = list(range(1, n + 1)); rng.shuffle(ivs)
+    ops = ['engine ' + rng.choice(['epoll', 'select'])]
+    victim = rng.randrange(n)
+    for j in range(n):
+        ops.append('new ' + ('d%d' % victim if (j == ivs.index(1) and rng.random() < 0.5) else '-'))
+    for j in range(n):
+        ops.append('init %d %d %s' % (j, ivs[j], rng.choice('op')))
+    for j in range(n):
+        ops.append('en %d' % j)
+    for _ in range(rng.choice([1, 1, 2, 3])):
+        ops.append(rng.choice(['dis %d', 'del %d', 'dis %d']) % rng.randrange(n))
+    for _ in range(n + 3):
+        ops.append('adv 1')
+    return ops
+
+
 def gen(rng, tier):
     n = 400 if tier == 'quick' else 6000
     yield ['new -', 'init 0 0 o', 'en 5', 'frob', 'new x0', 'init 0 5 q', 'adv x']           # malformed stream
@@ -66,8 +102,17 @@ def gen(rng, tier):
     yield ['new -', 'init 0 3 p', 'en 0', 'adv 10', 'adv 2', 'dis 0', 'adv 50']             # late wake-up: 3 catch-up firings
     yield ['engine select', 'new d1', 'new -', 'init 0 5 p', 'init 1 5 p', 'en 0', 'en 1', 'adv 5', 'adv 5']  # same deadline; one disables the other
     yield ['new x1', 'new -', 'new -', 'init 0 5 o', 'init 1 5 o', 'init 2 6 o', 'en 2', 'en 1', 'en 0', 'adv 6']  # destroy a due timer from a callback; heap middle removal
+    # TimerPool (eventx/timer_pool.cpp): doAfter / doEvery / cancel (also from callbacks, also of itself) / cleanup
+    yield ['pafter 5 -', 'pevery 3 c0', 'adv 2', 'adv 1', 'adv 2', 'pcancel 0', 'pcancel 1', 'pcancel 1', 'adv 10', 'pcancel 7']
+    yield ['pevery 2 c0', 'pafter 4 c1', 'pafter 4 c2', 'adv 4', 'adv 4', 'pcleanup', 'pafter 1 -', 'adv 1', 'pcancel 3']
     for _ in range(n):
         yield gen_case(rng, rng.choice([6, 12, 25, 50]))
+    for _ in range(n // 4):
+        yield gen_heap_case(rng)
+    for _ in range(n // 4):
+        yield gen_pool_case(rng, rng.choice([6, 12, 25]))
+    yield ['pafter 5 -', 'new -']     # a case never mixes TimerPool and plain TimerEvent ops: bad-op on both sides
+    yield ['new -', 'pevery 5 -', 'new c0']
 
 
 def nontrivial(ops, model_lines):
